@@ -11,10 +11,12 @@ import (
 // Content samples per extension: valid documents with something to minify, documents the
 // library rejects, empty files and files larger than one copy buffer (32 KiB).
 var goodContent = map[string][]string{
-	"css": {"a { color : red ; }\n", "/* c */ .x > p { margin : 0px ; padding : 1.0em }\n@media screen { b { top : 0 } }\n"},
-	"js":  {"var x = 1 + 2 ;\nconsole.log( x ) ;\n", "function f ( a , b ) { return a + b }\nf( 1 , 2 )\n", "let s = 'x' // end"},
+	"css": {"a { background : url( \"http://example.com/a/img/x.png\" ) ; width : 1.23456px ; color : #ff0000 }\n", "a { color : red ; }\n", "/* c */ .x > p { margin : 0px ; padding : 1.0em }\n@media screen { b { top : 0 } }\n"},
+	"js": {"var x = 1 + 2 ;\nconsole.log( x ) ;\n", "function f ( a , b ) { return a + b }\nf( 1 , 2 )\n", "let s = 'x' // end",
+		"var p = 3.14159265358979 ; var q = a == null ? b : a ; var r = Math.pow( x , 2 ) ; try { f ( ) } catch ( e ) { } var o = { a : a , \"b\" : 1e3 } ;\n"},
 	"mjs": {"export default function ( a ) { return a * 2 }\n"},
-	"html": {"<p> hi </p>\n", "<!DOCTYPE html><html><head><style> a { b : c } </style></head><body><script> var q = 1 ; </script><p>  t  </p></body></html>\n",
+	"html": {"<p> hi </p>\n", "<!DOCTYPE html><html><head><title> t </title><link rel=\"stylesheet\" type=\"text/css\" href=\"http://example.com/a/s.css\"></head><body><!--[if IE]> x <![endif]--><!--# include virtual=\"x\" --><input type=\"text\" value=\"\"><a href=\"http://example.com/a/b.html\"> l </a><a href=\"https://example.com/c\"> m </a><form method=\"get\"><script type=\"text/javascript\"> var z = 1.23456789 ; </script></form></body></html>\n",
+		"<!DOCTYPE html><html><head><style> a { b : c } </style></head><body><script> var q = 1 ; </script><p>  t  </p></body></html>\n",
 		"<!-- note --><ul><li class=\"a b\"> one </li><li id=\"x\"> two </li></ul><p title=\"t\">  spaced   text  </p>\n"},
 	"tmpl":       {"<!-- c --><p title=\"x\">  {{ .Name }}  </p><ul><li> a </li></ul>\n"},
 	"gohtml":     {"<div id=\"d\">  {{ range .Items }} <b> {{ . }} </b> {{ end }}  </div><!-- c -->\n"},
@@ -25,7 +27,7 @@ var goodContent = map[string][]string{
 	"ejs":        {"<p title=\"x\">  <%= x %>  </p><!-- c -->\n"},
 	"htm":        {"<div>  a  <b> c </b></div>\n"},
 	"json":       {"{ \"a\" : [ 1 , 2.0 , 3 ] }\n", "[ true , null ]\n"},
-	"svg":        {"<svg xmlns=\"http://www.w3.org/2000/svg\">  <path d=\"M 10 10 L 20 20\"/>  </svg>\n"},
+	"svg":        {"<svg xmlns=\"http://www.w3.org/2000/svg\"><!-- kept? --><path d=\"M 10.12345 10.98765 L 20.55555 20.44444\" style=\"fill : #ff0000\"/><a href=\"http://example.com/a/x\"><text> t </text></a></svg>\n", "<svg xmlns=\"http://www.w3.org/2000/svg\">  <path d=\"M 10 10 L 20 20\"/>  </svg>\n"},
 	"xml":        {"<?xml version=\"1.0\"?>\n<a>  <b c = \"d\"> t </b>  </a>\n"},
 	"txt":        {"plain  text  file\n"},
 	"md":         {"# title\n\n text \n"},
@@ -490,6 +492,17 @@ func GenCase(tape *sim.Tape, crashBias bool) *Case {
 		iv.JSKeepVarNames, iv.XMLKeepWhitespace, iv.JSONKeepNumbers = tape.Draw(2) == 0, tape.Draw(2) == 0, tape.Draw(2) == 0
 		iv.CSSPrecision = []int{0, 1, 3}[tape.Draw(3)]
 		iv.JSONPrecision = []int{0, 1}[tape.Draw(2)]
+	}
+	if tape.Draw(4) == 0 {
+		iv.HTMLKeepSpecialComments, iv.HTMLKeepDefaultAttrVals = tape.Draw(2) == 0, tape.Draw(2) == 0
+		iv.HTMLKeepDocumentTags, iv.SVGKeepComments = tape.Draw(2) == 0, tape.Draw(2) == 0
+		iv.JSPrecision = []int{0, 1, 4}[tape.Draw(3)]
+		iv.JSVersion = []int{0, 2018, 2019, 2020, 2022}[tape.Draw(5)]
+		iv.SVGPrecision = []int{0, 1, 3}[tape.Draw(3)]
+		iv.URL = []string{"", "http://example.com/a/", "https://example.com/", "//example.com"}[tape.Draw(4)]
+	}
+	if iv.Type != "" && tape.Draw(4) == 0 {
+		iv.UseMime = true
 	}
 	return &Case{Tree: t, Inv: iv, Shape: shape}
 }
